@@ -589,7 +589,65 @@ func (g *gen) chain(op string, n int, pool []string) string {
 	return strings.Join(parts, " "+op+" ")
 }
 
+// altCount: the number of alternatives of the OR-of-ANDs reading of a generated text (sum over OR operands, product over AND
+// operands), saturating at 1<<30.  Used only to CHOOSE inputs: the library expands every expression to that many
+// alternatives before it looks at it (known finding D8, listed under C14), so a random 60-leaf tree can take minutes or
+// gigabytes; the large-input stage keeps to expansions of at most maxLargeAlternatives and leaves the blow-up to C14.
+const maxLargeAlternatives = 4096
+
+func altCount(text string) int {
+	toks := strings.Fields(strings.NewReplacer("(", " ( ", ")", " ) ").Replace(text))
+	pos := 0
+	sat := func(x int) int {
+		if x > 1<<30 {
+			return 1 << 30
+		}
+		return x
+	}
+	var orExpr func() int
+	atom := func() int {
+		if pos < len(toks) && toks[pos] == "(" {
+			pos++
+			v := orExpr()
+			if pos < len(toks) && toks[pos] == ")" {
+				pos++
+			}
+			return v
+		}
+		for pos < len(toks) && toks[pos] != "AND" && toks[pos] != "OR" && toks[pos] != ")" && toks[pos] != "(" {
+			pos++ // a term (id, +, WITH exception, reference)
+		}
+		return 1
+	}
+	andExpr := func() int {
+		v := atom()
+		for pos < len(toks) && toks[pos] == "AND" {
+			pos++
+			v = sat(v * atom())
+		}
+		return v
+	}
+	orExpr = func() int {
+		v := andExpr()
+		for pos < len(toks) && toks[pos] == "OR" {
+			pos++
+			v = sat(v + andExpr())
+		}
+		return v
+	}
+	return orExpr()
+}
+
 func (g *gen) largeExpr(pool []string) string {
+	for try := 0; try < 50; try++ {
+		if e := g.largeExpr1(pool); altCount(e) <= maxLargeAlternatives {
+			return e
+		}
+	}
+	return g.chain("AND", 7+g.rng.Intn(60), pool)
+}
+
+func (g *gen) largeExpr1(pool []string) string {
 	n := 7 + g.rng.Intn(60)
 	switch g.rng.Intn(10) {
 	case 9: // two long names that share a 70-byte prefix, as expression terms (and, below, as allowed entries)
